@@ -126,6 +126,8 @@ pub mod verif_select {
       let node_refs: Vec<&str> = nodes.iter().map(|s| s.as_str()).collect();
       let sel2 = filter_devices_verbose(&node_refs, true, &ex, false)?;
       out["selected_dev_file"] = json!(sel2);
+      let sel3 = filter_devices_verbose(&node_refs, false, &ex, false)?;
+      out["selected_dev_file_any"] = json!(sel3);
     }
     Ok(out)
   }
